@@ -2,8 +2,9 @@
    parse, the whole file. *)
 From Coq Require Import List Arith NArith ZArith Bool Lia.
 From GV Require Import Common.Outcome C10.YpModel C10.YpSpec C10.YpProofs C10.YpTotal C10.YpPrint
-  C10.YpRoundSpec C10.YpRoundBase C10.YpRoundInv C10.YpRoundAction C10.YpRoundRules
-  C10.YpRoundDeclSimple C10.YpRoundDeclToken C10.YpRoundDeclLines C10.YpRoundDeclInv C10.YpRoundValid.
+  C10.YpRoundSpec C10.YpRoundBase C10.YpRoundInv C10.YpRoundAction C10.YpRoundLex C10.YpRoundRules
+  C10.YpRoundDeclSimple C10.YpRoundDeclToken C10.YpRoundDeclLines C10.YpRoundDeclEol C10.YpRoundDeclEu
+  C10.YpRoundDeclImplicit C10.YpRoundDeclInv C10.YpRoundValid.
 Import ListNotations.
 Local Open Scope nat_scope.
 
@@ -11,11 +12,12 @@ Local Open Scope nat_scope.
 (*  Lexical layer and rules: the statements of YpRoundSpec.v                  *)
 (* ======================================================================== *)
 Lemma rule_roundtrip : rule_roundtrip_stmt.
-Proof. intros fa D src pre rl r rest i n a g e Hs Hi Hw Hr Hinv. apply (rule_at fa D src pre rl r rest); assumption. Qed.
+Proof. intros k fa D src pre rl r rest i n a g e Hs Hi Hw Hk Hr Hinv. apply (rule_at k fa D src pre rl r rest); assumption. Qed.
 
 Lemma rules_roundtrip : rules_roundtrip_stmt.
 Proof.
-  intros fa D l src pre gap rs i n a g e Hs Hi Hl Hw Hinv. apply (rules_section_at fa D l src pre); assumption.
+  intros k fa D l src pre gap rs rest i n a g e Hs Hi Hl Hw Hk He Hinv.
+  apply (rules_section_at k fa D l src pre gap rs rest); assumption.
 Qed.
 
 (* ======================================================================== *)
@@ -23,7 +25,7 @@ Qed.
 (* ======================================================================== *)
 Lemma decl_step : decl_step_stmt.
 Proof.
-  intros [nm|ts|k ts|t v|ts|v|v].
+  intros yk [nm|ts|k ts|t v|ts|v|v|t|nm t|t|ss|ts].
   - apply decl_step_start.
   - apply decl_step_token.
   - apply decl_step_prec.
@@ -31,11 +33,16 @@ Proof.
   - apply decl_step_avoid.
   - apply decl_step_expect.
   - apply decl_step_expectrr.
+  - apply decl_step_actiontype.
+  - apply decl_step_parse_param.
+  - apply decl_step_parse_generics.
+  - apply decl_step_expect_unused.
+  - apply decl_step_implicit.
 Qed.
 
 (* every declaration starts with '%' *)
 Lemma print_decl_hd : forall dl x, exists t, print_decl dl x = 37%N :: t.
-Proof. intros dl [nm|ts|[| |] ts|t v|ts|v|v]; eexists; reflexivity. Qed.
+Proof. intros dl [nm|ts|[| |] ts|t v|ts|v|v|t|nm t|t|ss|ts]; eexists; reflexivity. Qed.
 
 Lemma print_decls_pp_hd : forall l ds d rest, exists t, print_decls l d ds ++ kw_pp ++ rest = 37%N :: t.
 Proof.
@@ -44,30 +51,31 @@ Proof.
   - destruct (print_decl_hd (dlay_of l d) x) as [t E]. rewrite E. eexists. reflexivity.
 Qed.
 
-Lemma decls_loop_at : forall l ds d src pre rest i f n a g e lvl,
+Lemma decls_loop_at : forall k l ds d src pre rest i f n a g e lvl,
   src = pre ++ print_decls l d ds ++ kw_pp ++ rest -> i = byte_len pre ->
-  wf_decls l d ds -> decls_pre l d i lvl ds a -> List.length ds < f ->
+  wf_decls l d ds -> Forall (decl_kind_ok k) ds -> decls_pre l d i lvl ds a g -> List.length ds < f ->
   exists n',
-    decl_loop true KOriginal src (byte_len src) (fuel_for src) f (mkSt n a g e) i lvl
-    = Done (mkSt n' (decls_eff l d i lvl ds a) g e, Ok (i + byte_len (print_decls l d ds))).
+    decl_loop true k src (byte_len src) (fuel_for src) f (mkSt n a g e) i lvl
+    = Done (mkSt n' (decls_eff l d i lvl ds a) (decls_gat l d i ds g) e, Ok (i + byte_len (print_decls l d ds))).
 Proof.
-  intros l ds. induction ds as [|x ds IH]; intros d src pre rest i f n a g e lvl Hs Hi Hw Hp Hf.
+  intros k l ds. induction ds as [|x ds IH]; intros d src pre rest i f n a g e lvl Hs Hi Hw Hk Hp Hf.
   - destruct f as [|f]; [cbn in Hf; lia|]. cbn [print_decls app] in Hs.
     exists n. cbn [decl_loop].
     assert (Hs0 : src = pre ++ 37%N :: (37%N :: rest)) by (rewrite Hs; reflexivity).
     rewrite (lt_len_at _ _ _ _ _ Hs0 Hi). cbn [negb].
-    look1 Hs Hi. cbn [print_decls byte_len decls_eff]. rewrite Nat.add_0_r. reflexivity.
+    look1 Hs Hi. cbn [print_decls byte_len decls_eff decls_gat]. rewrite Nat.add_0_r. reflexivity.
   - destruct f as [|f]; [cbn in Hf; lia|]. cbn [List.length] in Hf.
-    cbn [print_decls wf_decls decls_pre decls_eff] in *. destruct Hw as [Hwx Hw']. destruct Hp as [Hpx Hp'].
+    cbn [print_decls wf_decls decls_pre decls_eff decls_gat] in *. destruct Hw as [Hwx Hw']. destruct Hp as [Hpx Hp'].
+    inversion Hk as [|x' ds' Hkx Hk']; subst x' ds'.
     destruct (print_decls_pp_hd l ds (S d) rest) as [t Et].
     assert (Hs1 : src = pre ++ print_decl (dlay_of l d) x ++ 37%N :: t) by (rewrite Hs, <- Et; lsolve).
-    destruct (decl_step x src pre _ t i f n a g e lvl Hs1 Hi Hwx Hpx) as [n1 H1].
+    destruct (decl_step k x src pre _ t i f n a g e lvl Hs1 Hi Hwx Hkx Hpx) as [n1 H1].
     rewrite H1. clear H1.
     assert (Hs2 : src = (pre ++ print_decl (dlay_of l d) x) ++ print_decls l (S d) ds ++ kw_pp ++ rest)
       by (rewrite Hs; lsolve).
     assert (Hi2 : i + byte_len (print_decl (dlay_of l d) x) = byte_len (pre ++ print_decl (dlay_of l d) x))
       by (subst i; rewrite byte_len_app; reflexivity).
-    destruct (IH (S d) src _ rest _ f n1 _ g e _ Hs2 Hi2 Hw' Hp' ltac:(lia)) as [n2 H2].
+    destruct (IH (S d) src _ rest _ f n1 _ _ e _ Hs2 Hi2 Hw' Hk' Hp' ltac:(lia)) as [n2 H2].
     exists n2. rewrite H2. f_equal. f_equal. f_equal. rewrite byte_len_app. lia.
 Qed.
 
@@ -80,7 +88,7 @@ Qed.
 
 Lemma declarations_roundtrip : declarations_roundtrip_stmt.
 Proof.
-  intros l ds src rest n a g e Hs Hl Hw Hp.
+  intros k l ds src rest n a g e Hs Hl Hw Hk Hp.
   unfold parse_declarations.
   destruct (print_decls_pp_hd l ds 0 rest) as [t Et].
   assert (Hs0 : src = [] ++ l_gap l [0] ++ (print_decls l 0 ds ++ kw_pp ++ rest)) by (rewrite Hs; reflexivity).
@@ -88,8 +96,8 @@ Proof.
   cbn [sbind byte_len Nat.add].
   assert (Hlen : List.length ds < fuel_for src).
   { unfold fuel_for. rewrite Hs, !byte_len_app. pose proof (decls_length_le l ds 0). lia. }
-  destruct (decls_loop_at l ds 0 src (l_gap l [0]) rest _ (fuel_for src) (n + count_nl (l_gap l [0])) a g e 0
-              Hs eq_refl Hw Hp Hlen) as [n' Hn'].
+  destruct (decls_loop_at k l ds 0 src (l_gap l [0]) rest _ (fuel_for src) (n + count_nl (l_gap l [0])) a g e 0
+              Hs eq_refl Hw Hk Hp Hlen) as [n' Hn'].
   exists n'. exact Hn'.
 Qed.
 
@@ -115,80 +123,135 @@ Qed.
 Lemma header_absent : forall l ag, layout_text (l_gap l [0]) -> header_present (print l ag) = false.
 Proof.
   intros l ag Hl. unfold header_present, print.
-  destruct (print_decls_pp_hd l (ag_decls ag) 0 (l_gap l [2] ++ print_rules l 0 (ag_rules ag))) as [t Et].
-  destruct (drop_pws_layout _ Hl (print_decls l 0 (ag_decls ag) ++ kw_pp ++ l_gap l [2] ++ print_rules l 0 (ag_rules ag)))
+  destruct (print_decls_pp_hd l (ag_decls ag) 0 (l_gap l [2] ++ print_rules l 0 (ag_rules ag) ++ print_programs l ag)) as [t Et].
+  destruct (drop_pws_layout _ Hl (print_decls l 0 (ag_decls ag) ++ kw_pp ++ l_gap l [2] ++ print_rules l 0 (ag_rules ag) ++ print_programs l ag))
     as [[t' E]|E]; rewrite E.
   - reflexivity.
   - rewrite Et. cbn [drop_while]. change (is_pattern_ws 37) with false. cbv iota.
     rewrite <- Et.
     destruct (ag_decls ag) as [|x ds]; [reflexivity|]. cbn [print_decls].
     assert (Hk : forall dl x r, prefix_of kw_grmtools (print_decl dl x ++ r) = false).
-    { clear. intros dl [nm|ts|[| |] ts|t v|ts|v|v] r; reflexivity. }
+    { clear. intros dl [nm|ts|[| |] ts|t v|ts|v|v|t|nm t|t|ss|ts] r; reflexivity. }
     rewrite <- app_assoc. apply Hk.
 Qed.
 
 (* the three sections of YaccParser::parse *)
-Lemma parse_at : forall fa l ag,
+Lemma rules_end_programs : forall l ag, rules_end (print_programs l ag).
+Proof. intros l ag. unfold print_programs. destruct (ag_programs ag); [right; eexists; reflexivity | left; reflexivity]. Qed.
+
+Lemma wf_agram_decl_kinds : forall k ag, wf_agram k ag -> Forall (decl_kind_ok k) (ag_decls ag).
+Proof. intros k ag H. unfold wf_agram in H. decompose [and] H. assumption. Qed.
+Lemma wf_agram_rule_kinds : forall k ag, wf_agram k ag -> Forall (rule_kind_ok k) (ag_rules ag).
+Proof. intros k ag H. unfold wf_agram in H. decompose [and] H. assumption. Qed.
+
+Lemma parse_at : forall k fa l ag,
   wf_layout l ag ->
-  decls_pre l 0 (decls_off l) 0 (ag_decls ag) ast_new ->
+  Forall (decl_kind_ok k) (ag_decls ag) -> Forall (rule_kind_ok k) (ag_rules ag) ->
+  decls_pre l 0 (decls_off l) 0 (ag_decls ag) ast_new None ->
   tok_inv (declared_b ag) (decls_eff l 0 (decls_off l) 0 (ag_decls ag) ast_new) ->
   exists n',
-    parse true fa KOriginal (print l ag) (byte_len (print l ag)) (fuel_for (print l ag))
-    = Done (mkSt n' (ast_of fa l ag) None [], []).
+    parse true fa k (print l ag) (byte_len (print l ag)) (fuel_for (print l ag))
+    = Done (mkSt n' (ast_of fa l ag) (gat_of l ag) [], []).
 Proof.
-  intros fa l ag [Hl0 [Hwd [Hl2 Hwr]]] Hpre Hinv. unfold decls_off in *.
+  intros k fa l ag [Hl0 [Hwd [Hl2 [Hwr Hwp]]]] Hkd Hkr Hpre Hinv. unfold decls_off in *.
   set (src := print l ag).
-  assert (Hs : src = l_gap l [0] ++ print_decls l 0 (ag_decls ag) ++ kw_pp ++ (l_gap l [2] ++ print_rules l 0 (ag_rules ag)))
+  assert (Hs : src = l_gap l [0] ++ print_decls l 0 (ag_decls ag) ++ kw_pp
+                     ++ (l_gap l [2] ++ print_rules l 0 (ag_rules ag) ++ print_programs l ag))
     by reflexivity.
   unfold parse, st0.
-  destruct (declarations_roundtrip l (ag_decls ag) src _ 0 ast_new None [] Hs Hl0 Hwd Hpre) as [n1 H1].
+  destruct (declarations_roundtrip k l (ag_decls ag) src _ 0 ast_new None [] Hs Hl0 Hwd Hkd Hpre) as [n1 H1].
   rewrite H1. clear H1. cbn [obind].
-  assert (Hs2 : src = (l_gap l [0] ++ print_decls l 0 (ag_decls ag)) ++ kw_pp ++ l_gap l [2] ++ print_rules l 0 (ag_rules ag))
+  fold (decls_off l). fold (gat_of l ag). unfold decls_off.
+  assert (Hs2 : src = (l_gap l [0] ++ print_decls l 0 (ag_decls ag)) ++ kw_pp ++ l_gap l [2]
+                      ++ print_rules l 0 (ag_rules ag) ++ print_programs l ag)
     by (rewrite Hs; lsolve).
   assert (Hi2 : byte_len (l_gap l [0]) + byte_len (print_decls l 0 (ag_decls ag))
                 = byte_len (l_gap l [0] ++ print_decls l 0 (ag_decls ag))) by (rewrite byte_len_app; reflexivity).
-  destruct (rules_roundtrip fa (declared_b ag) l src _ _ (ag_rules ag) _ n1 _ None [] Hs2 Hi2 Hl2 Hwr Hinv) as [n2 H2].
+  destruct (rules_roundtrip k fa (declared_b ag) l src _ _ (ag_rules ag) _ _ n1 _ (gat_of l ag) [] Hs2 Hi2 Hl2 Hwr Hkr
+              (rules_end_programs l ag) Hinv) as [n2 H2].
   rewrite H2. clear H2. cbn [obind].
   unfold parse_programs.
-  assert (Hs3 : src = src ++ []) by (rewrite app_nil_r; reflexivity).
-  rewrite (look_at _ _ _ _ _ _ Hs3 eq_refl). cbn [prefix_of kw_pp sbind ret obind errs].
-  exists n2. unfold ast_of, rules_off, decls_off, actiont_of. change (byte_len kw_pp) with 2.
-  repeat f_equal.
+  set (a2 := rules_eff fa l 0 _ _ (ag_rules ag) _).
+  assert (Ha : ast_of fa l ag = programs_eff ag a2).
+  { unfold ast_of, a2, rules_off, decls_off. change (byte_len kw_pp) with 2. reflexivity. }
+  assert (Hs3 : src = ((l_gap l [0] ++ print_decls l 0 (ag_decls ag)) ++ kw_pp ++ l_gap l [2] ++ print_rules l 0 (ag_rules ag))
+                      ++ print_programs l ag) by (rewrite Hs; lsolve).
+  assert (Hi3 : byte_len (l_gap l [0]) + byte_len (print_decls l 0 (ag_decls ag)) + 2 + byte_len (l_gap l [2])
+                + byte_len (print_rules l 0 (ag_rules ag))
+                = byte_len ((l_gap l [0] ++ print_decls l 0 (ag_decls ag)) ++ kw_pp ++ l_gap l [2] ++ print_rules l 0 (ag_rules ag)))
+    by (rewrite !byte_len_app; change (byte_len kw_pp) with 2; lia).
+  rewrite Ha. unfold programs_eff, print_programs, wf_programs in *.
+  destruct (ag_programs ag) as [p|].
+  - destruct Hwp as [Hl5 Hp].
+    look1 Hs3 Hi3. change (byte_len kw_pp) with 2.
+    assert (Hs4 : src = (((l_gap l [0] ++ print_decls l 0 (ag_decls ag)) ++ kw_pp ++ l_gap l [2] ++ print_rules l 0 (ag_rules ag)) ++ kw_pp)
+                        ++ l_gap l [5] ++ p) by (rewrite Hs3; lsolve).
+    assert (Hi4 : byte_len (l_gap l [0]) + byte_len (print_decls l 0 (ag_decls ag)) + 2 + byte_len (l_gap l [2])
+                  + byte_len (print_rules l 0 (ag_rules ag)) + 2
+                  = byte_len (((l_gap l [0] ++ print_decls l 0 (ag_decls ag)) ++ kw_pp ++ l_gap l [2] ++ print_rules l 0 (ag_rules ag)) ++ kw_pp))
+      by (rewrite Hi3, (byte_len_app _ kw_pp); reflexivity).
+    rewrite (ws_gap_solid _ _ _ _ _ _ _ _ _ true Hs4 Hi4 Hl5 Hp) by (intros HH; discriminate HH).
+    cbn [sbind].
+    assert (Hs5 : src = ((((l_gap l [0] ++ print_decls l 0 (ag_decls ag)) ++ kw_pp ++ l_gap l [2] ++ print_rules l 0 (ag_rules ag)) ++ kw_pp)
+                         ++ l_gap l [5]) ++ p) by (rewrite Hs4; lsolve).
+    assert (Hi5 : byte_len (l_gap l [0]) + byte_len (print_decls l 0 (ag_decls ag)) + 2 + byte_len (l_gap l [2])
+                  + byte_len (print_rules l 0 (ag_rules ag)) + 2 + byte_len (l_gap l [5])
+                  = byte_len ((((l_gap l [0] ++ print_decls l 0 (ag_decls ag)) ++ kw_pp ++ l_gap l [2] ++ print_rules l 0 (ag_rules ag)) ++ kw_pp)
+                               ++ l_gap l [5]))
+      by (rewrite Hi4, (byte_len_app _ (l_gap l [5])); reflexivity).
+    rewrite (slice_from_at _ _ _ _ Hs5 Hi5). cbn [lifto sbind ret obind errs]. stn.
+    eexists. reflexivity.
+  - rewrite app_nil_r in Hs3.
+    assert (Hs3' : src = src ++ []) by (rewrite app_nil_r; reflexivity).
+    assert (Hi3' : byte_len (l_gap l [0]) + byte_len (print_decls l 0 (ag_decls ag)) + 2 + byte_len (l_gap l [2])
+                   + byte_len (print_rules l 0 (ag_rules ag)) = byte_len src) by (rewrite Hi3, <- Hs3; reflexivity).
+    rewrite (look_at _ _ _ _ _ _ Hs3' Hi3'). cbn [prefix_of kw_pp sbind ret obind errs].
+    eexists. reflexivity.
 Qed.
 
 (* parse, then validate: the AST is the denoted one, the errors are exactly those of validating it *)
-Lemma run_case_at : forall fa l ag,
+Lemma run_case_at : forall k fa l ag,
   wf_layout l ag ->
-  decls_pre l 0 (decls_off l) 0 (ag_decls ag) ast_new ->
+  Forall (decl_kind_ok k) (ag_decls ag) -> Forall (rule_kind_ok k) (ag_rules ag) ->
+  decls_pre l 0 (decls_off l) 0 (ag_decls ag) ast_new None ->
   tok_inv (declared_b ag) (decls_eff l 0 (decls_off l) 0 (ag_decls ag) ast_new) ->
   forall v, complete_and_validate (ast_of fa l ag) = Done v ->
-  run_case true fa KOriginal (print l ag)
+  run_case true fa k (print l ag)
   = Done (TResult (ast_of fa l ag) (match v with Some e => [e] | None => [] end) (warnings_of fa l ag)).
 Proof.
-  intros fa l ag Hw Hpre Hinv v Hv. unfold run_case, yacc_new_gen.
+  intros k fa l ag Hw Hkd Hkr Hpre Hinv v Hv. unfold run_case, yacc_new_gen.
   rewrite (header_absent l ag (proj1 Hw)).
-  destruct (parse_at fa l ag Hw Hpre Hinv) as [n' Hp]. rewrite Hp. cbn [obind ast].
+  destruct (parse_at k fa l ag Hw Hkd Hkr Hpre Hinv) as [n' Hp]. rewrite Hp. cbn [obind ast].
   rewrite Hv. cbn [obind app]. reflexivity.
 Qed.
 
 Lemma yacc_parse_roundtrip : yacc_parse_roundtrip_stmt.
 Proof.
-  intros fa l ag Hag Hlay.
-  pose proof (decls_pre_wf l ag Hag) as Hpre. pose proof (decls_tok_inv l ag) as Hinv.
-  destruct (yacc_parse_total true fa KOriginal (print l ag)) as [r Hr].
+  intros k fa l ag Hag Hlay.
+  pose proof (decls_pre_wf k l ag Hag) as Hpre. pose proof (decls_tok_inv l ag) as Hinv.
+  pose proof (wf_agram_decl_kinds k ag Hag) as Hkd. pose proof (wf_agram_rule_kinds k ag Hag) as Hkr.
+  destruct (yacc_parse_total true fa k (print l ag)) as [r Hr].
   assert (Hv : exists v, complete_and_validate (ast_of fa l ag) = Done v).
   { unfold run_case, yacc_new_gen in Hr. rewrite (header_absent l ag (proj1 Hlay)) in Hr.
-    destruct (parse_at fa l ag Hlay Hpre Hinv) as [n' Hp]. rewrite Hp in Hr. cbn [obind ast] in Hr.
+    destruct (parse_at k fa l ag Hlay Hkd Hkr Hpre Hinv) as [n' Hp]. rewrite Hp in Hr. cbn [obind ast] in Hr.
     destruct (complete_and_validate (ast_of fa l ag)) as [v| |]; [exists v; reflexivity | discriminate Hr ..]. }
   destruct Hv as [v Hv]. exists v. split; [exact Hv|].
   apply run_case_at; assumption.
 Qed.
 
-(* the round-trip law: whatever the layout, the printed grammar parses to its AST,
+(* the round-trip law: whatever the dialect and the layout, the printed grammar parses to its AST,
    without error — for the repaired action span ([fa = true]) and for the code as it is *)
 Lemma yacc_roundtrip : yacc_roundtrip_stmt.
 Proof.
-  intros fa l ag Hag Hlay.
-  apply (run_case_at fa l ag Hlay (decls_pre_wf l ag Hag) (decls_tok_inv l ag) None).
-  apply validation_clean; assumption.
+  intros k fa l ag Hag Hlay.
+  apply (run_case_at k fa l ag Hlay (wf_agram_decl_kinds k ag Hag) (wf_agram_rule_kinds k ag Hag)
+           (decls_pre_wf k l ag Hag) (decls_tok_inv l ag) None).
+  apply (validation_clean k); assumption.
 Qed.
+
+Lemma yacc_roundtrip_original : yacc_roundtrip_original_stmt.
+Proof. exact (yacc_roundtrip KOriginal). Qed.
+Lemma yacc_roundtrip_grmtools : yacc_roundtrip_grmtools_stmt.
+Proof. exact (yacc_roundtrip KGrmtools). Qed.
+Lemma yacc_roundtrip_eco : yacc_roundtrip_eco_stmt.
+Proof. exact (yacc_roundtrip KEco). Qed.
